@@ -568,14 +568,51 @@ func (w *pWorld) emitPkg(p *pPkg, sb *strings.Builder, digest *[]string) {
 			}
 		}
 	}
-	// 4'. functions
+	// 4'. functions, callees before callers (a constructor may delegate to another function of the package)
+	fdecl := map[string]*ast.FuncDecl{}
+	forder := []string{}
 	for _, d := range p.file.Decls {
-		fd, ok := d.(*ast.FuncDecl)
-		if !ok || fd.Recv != nil {
-			continue
+		if fd, ok := d.(*ast.FuncDecl); ok && fd.Recv == nil {
+			fdecl[fd.Name.Name] = fd
+			forder = append(forder, fd.Name.Name)
+		}
+	}
+	state := map[string]int{} // 1 = being emitted, 2 = done
+	var emit func(name string)
+	emit = func(name string) {
+		if state[name] == 2 {
+			return
+		}
+		fd := fdecl[name]
+		if state[name] == 1 {
+			fail(pos(fd), "%s: recursive function", name)
+		}
+		state[name] = 1
+		if fd.Body != nil {
+			ast.Inspect(fd.Body, func(n ast.Node) bool {
+				if c, ok := n.(*ast.CallExpr); ok {
+					var h *ast.Ident
+					switch f := c.Fun.(type) {
+					case *ast.Ident:
+						h = f
+					case *ast.IndexExpr:
+						h, _ = f.X.(*ast.Ident)
+					case *ast.IndexListExpr:
+						h, _ = f.X.(*ast.Ident)
+					}
+					if h != nil && fdecl[h.Name] != nil {
+						emit(h.Name)
+					}
+				}
+				return true
+			})
 		}
 		w.emitFunc(p, fd, sb)
 		*digest = append(*digest, fmt.Sprintf("-- %s.%s := %s", p.name, fd.Name.Name, src(fd.Body)))
+		state[name] = 2
+	}
+	for _, n := range forder {
+		emit(n)
 	}
 	sb.WriteString(late.String())
 }
@@ -1101,8 +1138,7 @@ func (s *pScope) value(e ast.Expr) (string, pRes) {
 	return "", pRes{}
 }
 
-// h(a1, …, an) / h[T…](a1, …, an) where h is a top-level function of the same package declared EARLIER in the file (so
-// its Lean definition exists): the Lean application, arguments coerced to the parameter types. Type arguments are
+// h(a1, …, an) / h[T…](a1, …, an) where h is a top-level function of the same package (functions are emitted callees first): the Lean application, arguments coerced to the parameter types. Type arguments are
 // the explicit ones, or — when left to inference — the caller's type parameters of the same names.
 func (s *pScope) ctorCall(x *ast.CallExpr) (string, pRes, bool) {
 	if x.Ellipsis != token.NoPos {
@@ -1129,7 +1165,7 @@ func (s *pScope) ctorCall(x *ast.CallExpr) (string, pRes, bool) {
 			fd = g
 		}
 	}
-	if fd == nil || fd.Pos() >= x.Pos() {
+	if fd == nil {
 		return "", pRes{}, false
 	}
 	env := map[string]string{}
@@ -1220,7 +1256,59 @@ func (w *pWorld) emitFunc(p *pPkg, fd *ast.FuncDecl, sb *strings.Builder) {
 		}
 	}
 	res := w.resolve(p, oneResult(fd.Type, what), env)
+	literalFromAssignments(fd)
 	e := singleReturn(fd.Body, what)
 	v, vt := sc.value(e)
 	fmt.Fprintf(sb, "/-- %s: %s -/\ndef %s_%s%s %s : %s :=\n  %s\n\n", what, cmt(src(fd.Body)), p.name, what, binders(tps), strings.Join(params, " "), strip(res.lean), sc.coerce(v, vt, res, e))
+}
+
+// `var m T; m.f1 = e1; …; m.fk = ek; return m` (every statement of that form, each field at most once, no ei mentioning
+// m) is `return T{f1: e1, …, fk: ek}`; fields left out stay at their zero value and are rejected by the literal rule.
+func literalFromAssignments(fd *ast.FuncDecl) {
+	b := fd.Body.List
+	if len(b) < 3 {
+		return
+	}
+	ds, ok := b[0].(*ast.DeclStmt)
+	if !ok {
+		return
+	}
+	gd, ok := ds.Decl.(*ast.GenDecl)
+	if !ok || gd.Tok != token.VAR || len(gd.Specs) != 1 {
+		return
+	}
+	vs, ok := gd.Specs[0].(*ast.ValueSpec)
+	if !ok || len(vs.Names) != 1 || len(vs.Values) != 0 || vs.Type == nil {
+		return
+	}
+	m := vs.Names[0].Name
+	r, ok := b[len(b)-1].(*ast.ReturnStmt)
+	if !ok || len(r.Results) != 1 || src(r.Results[0]) != m {
+		return
+	}
+	elts := []ast.Expr{}
+	seen := map[string]bool{}
+	for _, st := range b[1 : len(b)-1] {
+		as, ok := st.(*ast.AssignStmt)
+		if !ok || as.Tok != token.ASSIGN || len(as.Lhs) != 1 || len(as.Rhs) != 1 {
+			return
+		}
+		sel, ok := as.Lhs[0].(*ast.SelectorExpr)
+		if !ok || src(sel.X) != m || seen[sel.Sel.Name] {
+			return
+		}
+		bad := false
+		ast.Inspect(as.Rhs[0], func(n ast.Node) bool {
+			if i, ok := n.(*ast.Ident); ok && i.Name == m {
+				bad = true
+			}
+			return true
+		})
+		if bad {
+			return
+		}
+		seen[sel.Sel.Name] = true
+		elts = append(elts, &ast.KeyValueExpr{Key: ast.NewIdent(sel.Sel.Name), Value: as.Rhs[0]})
+	}
+	fd.Body.List = []ast.Stmt{&ast.ReturnStmt{Results: []ast.Expr{&ast.CompositeLit{Type: vs.Type, Elts: elts}}}}
 }
